@@ -153,3 +153,22 @@ Section Holds.
   Theorem holds_model : holds c (run_model c) = [].
   Proof. destruct (ckind c) eqn:K; [now apply contains_case|now apply file_case|now apply update_case]. Qed.
 End Holds.
+
+(* ---- histories ---- *)
+Lemma holds_history_model h : valid_history h -> holds_history h (run_history h) = [].
+Proof.
+  induction 1 as [|c h Hc Hh IH]; cbn [run_history map holds_history]; [reflexivity|].
+  rewrite (holds_model c Hc). exact IH.
+Qed.
+
+(* the decision for a request does not depend on what the handler was asked before *)
+Lemma history_stateless h1 h2 c d :
+  last (run_history (h1 ++ [c])) d = run_model c /\
+  last (run_history (h1 ++ [c])) d = last (run_history (h2 ++ [c])) d.
+Proof.
+  assert (E : forall h, last (run_history (h ++ [c])) d = run_model c).
+  { intros h. unfold run_history. rewrite map_app. cbn [map]. apply last_last. }
+  split; [apply E|now rewrite !E].
+Qed.
+Lemma history_pointwise h i : nth_error (run_history h) i = option_map run_model (nth_error h i).
+Proof. unfold run_history. apply nth_error_map. Qed.
